@@ -186,6 +186,18 @@ class ISD(model.Document):
 
   def _region_always_has_background(region: typing.Type[model.Region]) -> bool:
 
+    # the background of the region may become visible at any time if its appearance is animated
+
+    for anim_step in region.iter_animation_steps():
+      if anim_step.style_property in (
+        styles.StyleProperties.BackgroundColor,
+        styles.StyleProperties.Display,
+        styles.StyleProperties.Opacity,
+        styles.StyleProperties.ShowBackground,
+        styles.StyleProperties.Visibility
+      ):
+        return True
+
     if region.get_style(styles.StyleProperties.Opacity) == 0:
       return False
 
